@@ -87,6 +87,20 @@ def extract(repo):
     if not re.search(r"if channel_id\.oid\(\) > node_state\.dbid_high_water_mark", fbody):
         raise ExtractError("forget_channel: high-water-mark update not found")
 
+    # remove_block: which hash is compared with the streamed block / handed to the proof check
+    m = re.search(r"let tip_block_hash = ([\w.()]+);", tr)
+    if not m:
+        raise ExtractError("remove_block: `let tip_block_hash = ...` not found")
+    if m.group(1) == "prev_headers.0.block_hash()":
+        remove_expects_tip_hash = False
+    elif m.group(1) == "self.tip.0.block_hash()":
+        remove_expects_tip_hash = True
+    else:
+        raise ExtractError("remove_block: unexpected tip_block_hash expression " + m.group(1))
+    # fix b36e377: add_block / remove_block abort the stream on Err
+    if len(re.findall(r"if res\.is_err\(\) && streamed \{\s*self\.abort_streamed_block\(\);", tr)) != 2:
+        raise ExtractError("add_block/remove_block: abort of a refused streamed request not found")
+
     btc_ver, diffchange = _bitcoin_constants(repo)
 
     lean = "namespace VlsModel.Gen.Chain\n"
@@ -102,6 +116,7 @@ def extract(repo):
     lean += f"def channelStubPruneBlocks : Nat := {stub_prune}\n"
     lean += f"def channelStubPruneRegtestExtra : Nat := {stub_regtest_extra}\n"
     lean += f"def forgetPersistsTracker : Bool := {'true' if forget_persists_tracker else 'false'}\n"
+    lean += f"def removeExpectsTipHash : Bool := {'true' if remove_expects_tip_hash else 'false'}\n"
     lean += "end VlsModel.Gen.Chain\n"
     facts = {"MAX_REORG_SIZE": max_reorg, "DIFFCHANGE_INTERVAL": diffchange, "rust_bitcoin": btc_ver,
              "testnet_20min_gap_s": testnet_gap, "max_target": {k: "0x%x << %d" % v for k, v in tgt.items()},
@@ -109,6 +124,7 @@ def extract(repo):
              "MAX_COMMITMENT_OUTPUTS": max_commit_outs, "CHANNEL_STUB_PRUNE_BLOCKS": stub_prune,
              "stub_regtest_extra": stub_regtest_extra, "required_majority": "(n + 1) / 2",
              "is_done_events": [e for e, _ in lims],
-             "forget_channel_persists_tracker": forget_persists_tracker}
+             "forget_channel_persists_tracker": forget_persists_tracker,
+             "remove_block_streamed_hash": "tip" if remove_expects_tip_hash else "previous header (finding F17)"}
     obl = ["Gen.Chain: maxReorgSize >= 1, diffchangeInterval > 0, minDepth > 0 (theorem *_gen_ok)"]
     return {"Chain.lean": lean}, {p: {"facts": facts, "obligations": obl} for p in ("C13", "C14", "C15")}
